@@ -89,4 +89,56 @@ def run(tier="quick", seed=0):
     from shadows.project import run_shadow
 
     out.append(run_shadow("C12", tier, seed))
+    # directed message cases through the real CLI (fake git records argv): command-line and configured templates
+    bad_d = []
+    for case in MESSAGE_CASES:
+        try:
+            r = message_case(*case)
+        except Exception as e:  # noqa
+            r = f"exception {type(e).__name__}: {e}"
+        if r is not None:
+            bad_d.append((case, r))
+    out.append(
+        dict(
+            name="C12.directed_messages.commit_and_tag_argv_carry_the_rendered_templates_verbatim",
+            kind="B",
+            verdict="held" if not bad_d else "refuted",
+            cases=len(MESSAGE_CASES),
+            distinct=len(MESSAGE_CASES),
+            bound=f"{len(MESSAGE_CASES)} directed projects: --commit-message / --tag-message absent, empty, with placeholders, with the OLD/NEW shorthand, with quotes; configured templates with the words OLD/NEW; real CLI, fake git",
+            witness=[dict(case=list(c), problem=r) for c, r in bad_d[:3]],
+            observed=bad_d[0][1] if bad_d else None,
+            sample=[list(c) for c in MESSAGE_CASES[:3]],
+            python_replay=(dict(module="checks.c12", function="replay_message", args=list(bad_d[0][0])) if bad_d else None),
+        )
+    )
     return out
+
+
+# (--commit-message, --tag-message, configured commit_message)
+MESSAGE_CASES = [
+    (None, None, "bump version {old_version} -> {new_version}"),
+    (None, "", "bump version {old_version} -> {new_version}"),
+    (None, "release {new_version}", "bump version {old_version} -> {new_version}"),
+    (None, "NEW after OLD", "bump version {old_version} -> {new_version}"),
+    (None, " ", "bump version {old_version} -> {new_version}"),
+    ("it's a bump to {new_version}", None, "bump version {old_version} -> {new_version}"),
+    ('say "hi" OLD -> NEW', "it's NEW", "bump version {old_version} -> {new_version}"),
+    (None, None, "Brand NEW release {new_version}, OLD one was {old_version}"),
+    ("NEWS for OLDER folks: NEW", None, "Brand NEW release {new_version}"),
+    ("line one\nline two {new_version}", "multi\nline", "bump version {old_version} -> {new_version}"),
+]
+
+
+def message_case(commit_message, tag_message, cfg_commit_message):
+    from shadows.project import plain_scenario, check_scenario
+
+    r = check_scenario(0, sc=plain_scenario(commit_message=commit_message, tag_message=tag_message, cfg_commit_message=cfg_commit_message))
+    bad = {k: v for k, v in r.items() if k in ("C12", "C10", "_error")}
+    if not bad and r.get("_rc") != 0:
+        bad = {"C12": f"update failed (exit {r.get('_rc')})"}
+    return f"--commit-message {commit_message!r}, --tag-message {tag_message!r}, configured {cfg_commit_message!r}: {bad}" if bad else None
+
+
+def replay_message(commit_message, tag_message, cfg_commit_message):
+    return message_case(commit_message, tag_message, cfg_commit_message) is None
